@@ -1,3 +1,4 @@
+import AdeuModel.Lemmas.Lines
 import AdeuModel.Lemmas.Trim
 import AdeuModel.Lemmas.Frame
 import AdeuModel.Lemmas.Effective
@@ -92,5 +93,21 @@ theorem C02_heuristic_applies_effective_edit (s : Sess) (m : HMatch) (e : HEdit)
 example : Doc.effectiveEdit "Hello big world".toList 0 15 "Hello small world".toList = some (6, 3, "small".toList) := by decide
 
 example : trim pyIsSpace "Hello big world".toList "Hello small world".toList = (6, 6) := by decide
+
+/-- **A rewritten insertion reads as its replacement text.**  When an edit lands inside a pending insertion the
+engine replaces that insertion by one carrying the insertion's text with the range replaced (`nestedText`); when
+that text has line breaks it stays one inline insertion (`inlineLines`).  For lines without bold / italic markers,
+what the reader extracts from the new insertion is exactly that text (a break as newline, a literal tab as the
+space the reader shows for it): no character of the insertion is lost or reordered. -/
+theorem C02_rewritten_insertion_reads_as_replacement (text : Str) (style : Option Doc.Run)
+    (hp : ∀ l ∈ Doc.splitBreaks text, Doc.PlainLine l) :
+    (Doc.inlineLines text style).flatMap Doc.childText = text.map Doc.shown :=
+  Doc.inlineLines_text text style hp
+
+/-- splitting at line breaks and joining again gives the text back -/
+theorem C02_split_breaks_join (t : Str) : Doc.joinShown (Doc.splitBreaks t) = t.map Doc.shown :=
+  Doc.joinShown_splitBreaks t
+
+example : (Doc.inlineLines "brown\nlazy cat ".toList none).flatMap Doc.childText = "brown\nlazy cat ".toList := by decide +kernel
 
 end Adeu.Props.C02
